@@ -76,6 +76,16 @@ def check_event(s, ev, out):
     want = sorted(f'{u.jobid}[{u.target}]' for u in s.handed())
     if busy != want:
         out.fail('crew/busy-differs', f'crew={busy} in-flight={want} op={ev["op"]}')
+    # (iii') a failure upstream must not take the job of a unit that is
+    # still executing out of the queue: its reply could not be applied
+    for v in ev.get('purged_unqueued', []):
+        out.fail(
+            'purge/executing-job-dropped-from-queue',
+            f'{v} is in flight; the failure of {ev.get("unit")} purged it and '
+            f'its job is no longer in schedule.que '
+            f'({[j.tag for j in s.sched.que]}): its reply will be dropped',
+        )
+        break
     # (iii) a reply is applied exactly once
     if ev['op'][0] == 'rep' and 'unit' in ev:
         u = ev['unit']
